@@ -1,6 +1,7 @@
 package main
 
 import (
+	"strconv"
 	"fmt"
 	"go/ast"
 	"go/token"
@@ -1136,6 +1137,26 @@ func (e *Exec) applyContract(ct *Contract, fn *types.Func, sig *types.Signature,
 		}
 		e.assert(c.st, name, "precondition", phi, rq.Text, e.prog.pos(call), e.modelVars(c.st, c.fr))
 	}
+	// termination of mutual recursion: functions whose decreases clause carries the same group ("decreases[group/level] m")
+	// call each other only with a smaller measure, or with the same measure and a smaller level
+	if e.topCon != nil && ct != e.topCon && ct.Decr != nil && e.topCon.Decr != nil && decrGroup(ct.Decr.Label) != "" && decrGroup(ct.Decr.Label) == decrGroup(e.topCon.Decr.Label) && !e.inSpawn {
+		sc := &Ctx{st: c.st, fr: cfr, spec: true, bound: bound, old: pre}
+		newM := e.eval(ct.Decr.Expr, sc)
+		top := c.fr
+		for top != nil && !top.top {
+			top = top.parent
+		}
+		if top != nil && top.entry != nil {
+			oc := &Ctx{st: top.entry, fr: top, spec: true, old: top.entry}
+			oldM := e.eval(e.topCon.Decr.Expr, oc)
+			lvl := "false"
+			if decrLevel(ct.Decr.Label) < decrLevel(e.topCon.Decr.Label) {
+				lvl = "true"
+			}
+			e.assert(c.st, fmt.Sprintf("%s#decreases[%s->%s]", e.fnName, e.topCon.Decr.Label, ct.Decr.Label), "termination",
+				fmt.Sprintf("(and (<= 0 %s) (or (< %s %s) (and (= %s %s) %s)))", newM.S, newM.S, oldM.S, newM.S, oldM.S, lvl), ct.Decr.Text, e.prog.pos(call), e.modelVars(c.st, c.fr))
+		}
+	}
 	// termination of self-recursion: the measure decreases and is bounded below
 	if ct == e.topCon && ct.Decr != nil {
 		sc := &Ctx{st: c.st, fr: cfr, spec: true, bound: bound, old: pre}
@@ -1511,6 +1532,23 @@ func (e *Exec) specCall(call *ast.CallExpr, c *Ctx) Term {
 			ch := e.eval(call.Args[0], c)
 			e.vc.Decl("fun:parkedrecv", "(declare-fun parkedrecv (Int Int) Bool)")
 			return Term{fmt.Sprintf("(parkedrecv %s %s)", ch.S, e.now(c.st).S), tBool}
+		case "subsetcard":
+			// subsetcard(a, b): true; brings in the instance, for the key sets of these two maps, of the fact that a subset
+			// has at most as many elements (card is an uninterpreted function of the key set otherwise)
+			a := e.eval(call.Args[0], c)
+			b := e.eval(call.Args[1], c)
+			if a.T.K == KMap && b.T.K == KMap && e.Sort(a.T.Key) == e.Sort(b.T.Key) {
+				da, db := e.mapDom(c.st, a), e.mapDom(c.st, b)
+				ca, cb := e.cardFn(a.T), e.cardFn(b.T)
+				ks := e.Sort(a.T.Key)
+				qv := fmt.Sprintf("k!sc%d", e.nextQ())
+				// an instance of a theorem about finite sets: a fact of the VC, not something to be proved
+				e.vc.Fact(fmt.Sprintf("(=> (forall ((%s %s)) (=> (select %s %s) (select %s %s))) (<= (%s %s) (%s %s)))", qv, ks, da, qv, db, qv, ca, da, cb, db))
+				e.externs["finite-set fact: a subset has at most as many elements (instances requested by subsetcard(...))"] = true
+				return Term{"true", tBool}
+			}
+			e.errorf("%s: subsetcard needs two maps with the same key type", e.curPos)
+			return Term{"true", tBool}
 		case "msum":
 			m := e.eval(call.Args[0], c)
 			return Term{e.msumTerm(e.mapDom(c.st, m), e.mapVal(c.st, m), m.T), m.T.Elem}
@@ -1948,4 +1986,21 @@ func (e *Exec) specFnCall(gf *GhostFunc, args []Term, c *Ctx) Term {
 		return Term{d.name, gf.Ret}
 	}
 	return Term{fmt.Sprintf("(%s %s)", d.name, strings.Join(as, " ")), gf.Ret}
+}
+
+
+// decreases[group/level]: the recursion group and the level of a function in it
+func decrGroup(label string) string {
+	if i := strings.Index(label, "/"); i > 0 {
+		return label[:i]
+	}
+	return ""
+}
+
+func decrLevel(label string) int {
+	if i := strings.Index(label, "/"); i > 0 {
+		n, _ := strconv.Atoi(label[i+1:])
+		return n
+	}
+	return 0
 }
